@@ -4,6 +4,7 @@
 #ifndef PCF_H
 #define PCF_H
 
+#include <stdint.h>
 #include <stdio.h>
 #include "common.h"
 #include "uthash.h"
@@ -15,7 +16,7 @@ enum pcf_values {
 };
 
 struct pcf_value {
-	int value;
+	int64_t value; /* PRV values are 64 bits wide */
 	char label[MAX_PCF_LABEL];
 
 	UT_hash_handle hh;
@@ -48,7 +49,7 @@ USE_RET int pcf_close(struct pcf *pcf);
 
 USE_RET struct pcf_type *pcf_find_type(struct pcf *pcf, int type_id);
 USE_RET struct pcf_type *pcf_add_type(struct pcf *pcf, int type_id, const char *label);
-USE_RET struct pcf_value *pcf_add_value(struct pcf_type *type, int value, const char *label);
-USE_RET struct pcf_value *pcf_find_value(struct pcf_type *type, int value);
+USE_RET struct pcf_value *pcf_add_value(struct pcf_type *type, int64_t value, const char *label);
+USE_RET struct pcf_value *pcf_find_value(struct pcf_type *type, int64_t value);
 
 #endif /* PCF_H */
